@@ -395,8 +395,8 @@ func init() {
 							num = true
 						}
 					}
-					view := fmt.Sprintf("(mkCrlView %s %s %s %s %s %s %s)", entries, cqBool(!crl.NextUpdate.IsZero()), cqBool(crl.NextUpdate.After(crl.ThisUpdate.AddDate(0, 0, 10))),
-						cqBool(crl.NextUpdate.After(crl.ThisUpdate.AddDate(0, 12, 0))), cqBool(aki), cqBool(num), cqBool(ci == 0))
+					view := fmt.Sprintf("(mkCrlView %s %s %s %s %s %s %s)", entries, cqBool(!crl.NextUpdate.IsZero()), cqZ(crl.ThisUpdate.Unix()),
+						cqZ(crl.NextUpdate.Unix()), cqBool(aki), cqBool(num), cqBool(ci == 0))
 					sts := make([]string, len(crlLints))
 					tag := ""
 					for i, n := range crlLints {
